@@ -2,16 +2,24 @@ package simrt
 
 import (
 	"runtime"
+	"sync/atomic"
 	"unsafe"
 )
 
-func chanKey[T any](ch <-chan T) uintptr  { return *(*uintptr)(unsafe.Pointer(&ch)) }
+//go:norace
+func chanKey[T any](ch <-chan T) uintptr { return *(*uintptr)(unsafe.Pointer(&ch)) }
+
+//go:norace
 func chanKeyS[T any](ch chan<- T) uintptr { return *(*uintptr)(unsafe.Pointer(&ch)) }
 
 // ChanKey exposes the scheduling key of a channel.
+//
+//go:norace
 func ChanKey[T any](ch <-chan T) uintptr { return chanKey(ch) }
 
 // Send is `ch <- v` under the scheduler.
+//
+//go:norace
 func Send[T any](ch chan<- T, v T) {
 	k := K
 	if k == nil {
@@ -58,6 +66,7 @@ func Send[T any](ch chan<- T, v T) {
 	default:
 	}
 	p := &pendSend{actor: k.cur, val: &v}
+	atomic.StoreUint32(&p.hb, 1) // send happens-before the matching receive
 	k.pend[key] = append(k.pend[key], p)
 	k.Notify(key)
 	for {
@@ -86,6 +95,7 @@ func Send[T any](ch chan<- T, v T) {
 	}
 }
 
+//go:norace
 func (k *Kernel) removePend(key uintptr, p *pendSend) {
 	l := k.pend[key]
 	for i, x := range l {
@@ -102,6 +112,8 @@ func (k *Kernel) removePend(key uintptr, p *pendSend) {
 }
 
 // tryRecv attempts a non-blocking receive, including from senders parked in the kernel.
+//
+//go:norace
 func tryRecv[T any](k *Kernel, ch <-chan T, key uintptr) (v T, ok bool, got bool) {
 	select {
 	case v, ok = <-ch:
@@ -113,6 +125,7 @@ func tryRecv[T any](k *Kernel, ch <-chan T, key uintptr) (v T, ok bool, got bool
 		p := l[0]
 		k.removePend(key, p)
 		p.taken = true
+		atomic.LoadUint32(&p.hb)
 		v = *(p.val.(*T))
 		k.Notify(key)
 		return v, true, true
@@ -121,6 +134,8 @@ func tryRecv[T any](k *Kernel, ch <-chan T, key uintptr) (v T, ok bool, got bool
 }
 
 // Recv2 is `v, ok := <-ch` under the scheduler.
+//
+//go:norace
 func Recv2[T any](ch <-chan T) (T, bool) {
 	k := K
 	if k == nil {
@@ -157,12 +172,16 @@ func Recv2[T any](ch <-chan T) (T, bool) {
 }
 
 // Recv is `<-ch` under the scheduler.
+//
+//go:norace
 func Recv[T any](ch <-chan T) T {
 	v, _ := Recv2(ch)
 	return v
 }
 
 // Close is the builtin close under the scheduler.
+//
+//go:norace
 func Close[T any](ch chan<- T) {
 	k := K
 	if k == nil {
@@ -186,6 +205,8 @@ func Close[T any](ch chan<- T) {
 }
 
 // TryRecv is a single non-blocking receive (used by harness code and select-with-default).
+//
+//go:norace
 func TryRecv[T any](ch <-chan T) (T, bool, bool) {
 	k := K
 	if k == nil || k.dying {
@@ -205,6 +226,8 @@ func TryRecv[T any](ch <-chan T) (T, bool, bool) {
 }
 
 // TrySend is a single non-blocking send (buffered channels, or a parked real receiver).
+//
+//go:norace
 func TrySend[T any](ch chan<- T, v T) bool {
 	k := K
 	select {
@@ -219,6 +242,8 @@ func TrySend[T any](ch chan<- T, v T) bool {
 }
 
 // selChoose decides among ready cases (a scheduler decision when several are ready).
+//
+//go:norace
 func (k *Kernel) selChoose(ready []int) int {
 	if len(ready) == 1 {
 		return ready[0]
@@ -237,6 +262,7 @@ func (k *Kernel) selChoose(ready []int) int {
 	return ready[idx]
 }
 
+//go:norace
 func readyRecv[T any](k *Kernel, ch <-chan T) bool {
 	if ch == nil {
 		return false
@@ -253,6 +279,7 @@ func readyRecv[T any](k *Kernel, ch <-chan T) bool {
 	return isClosedEmpty(ch)
 }
 
+//go:norace
 func isClosedEmpty[T any](ch <-chan T) bool {
 	select {
 	case _, ok := <-ch:
@@ -266,21 +293,26 @@ func isClosedEmpty[T any](ch <-chan T) bool {
 }
 
 // Select1..4: receive-only select statements. idx = index of the chosen case, -1 = default.
+//
+//go:norace
 func Select1[A any](def bool, c0 <-chan A) (idx int, a A, aok bool) {
 	i, a, aok, _, _, _, _, _, _ := Select4[A, struct{}, struct{}, struct{}](def, c0, nil, nil, nil)
 	return i, a, aok
 }
 
+//go:norace
 func Select2[A, B any](def bool, c0 <-chan A, c1 <-chan B) (idx int, a A, aok bool, b B, bok bool) {
 	i, a, aok, b, bok, _, _, _, _ := Select4[A, B, struct{}, struct{}](def, c0, c1, nil, nil)
 	return i, a, aok, b, bok
 }
 
+//go:norace
 func Select3[A, B, C any](def bool, c0 <-chan A, c1 <-chan B, c2 <-chan C) (idx int, a A, aok bool, b B, bok bool, c C, cok bool) {
 	i, a, aok, b, bok, c, cok, _, _ := Select4[A, B, C, struct{}](def, c0, c1, c2, nil)
 	return i, a, aok, b, bok, c, cok
 }
 
+//go:norace
 func Select4[A, B, C, D any](def bool, c0 <-chan A, c1 <-chan B, c2 <-chan C, c3 <-chan D) (idx int, a A, aok bool, b B, bok bool, c C, cok bool, d D, dok bool) {
 	k := K
 	if k == nil || k.dying {
